@@ -309,7 +309,7 @@ impl<S: DnsClientStream> Stream for DnsMultiplexer<S> {
         for i in 0..QOS_MAX_RECEIVE_MSGS {
             match self.stream.poll_next_unpin(cx) {
                 Poll::Ready(Some(Ok(buffer))) => {
-                    messages_received = i;
+                    messages_received = i + 1;
 
                     //   deserialize or log decode_error
                     match DnsResponse::from_buffer(buffer.into_parts().0) {
